@@ -349,3 +349,205 @@ func TestSequence(t *testing.T) {
 		Check: checkSeq,
 	})
 }
+
+// ---------------------------------------------------------------------------
+// sub-check 4: the caller's payload buffers are reused.
+//
+// A program that encodes many scripts keeps one buffer and refills it. The
+// case owns one to three buffers (0 .. 65536 bytes, incl. 1024 / 4096); every
+// enc call refills one of them IN PLACE (same slice, same length, new
+// contents) and hands it to EncodeBIP276 - often several times in a row with
+// no other call in between. A redec call decodes a text the library produced
+// earlier in the sequence, refills the returned Data slice in place and encodes
+// the returned value again. Every text is kept and compared after the last
+// call with the reference encoding of the payload as it was AT THAT CALL.
+// ---------------------------------------------------------------------------
+
+// BufOp is one call.
+type BufOp struct {
+	Kind    string  `json:"kind"` // enc | redec
+	Prefix  string  `json:"prefix,omitempty"`
+	Version int     `json:"version,omitempty"`
+	Network int     `json:"network,omitempty"`
+	Buf     int     `json:"buf"`  // enc: which buffer; redec: which of the texts produced so far (mod)
+	Fill    pbt.Hex `json:"fill"` // byte i of the refilled slice = Fill[i mod len] + i div len
+}
+
+// Bufs is one case.
+type Bufs struct {
+	Sizes []int   `json:"sizes"`
+	Ops   []BufOp `json:"ops"`
+}
+
+func fillInPlace(b, pat []byte) {
+	if len(pat) == 0 {
+		pat = []byte{0}
+	}
+	for i := range b {
+		b[i] = pat[i%len(pat)] + byte(i/len(pat))
+	}
+}
+
+func checkBufs(ctx *pbt.Ctx, c Bufs) error {
+	if len(c.Sizes) == 0 || len(c.Sizes) > 3 || len(c.Ops) < 2 {
+		ctx.Discard("malformed case")
+		return nil
+	}
+	bufs := make([][]byte, len(c.Sizes))
+	for i, n := range c.Sizes {
+		if n < 0 || n > 1<<17 {
+			ctx.Discard("outside domain")
+			return nil
+		}
+		bufs[i] = make([]byte, n)
+	}
+	type held struct {
+		what string
+		text string
+		want ref.BIP276 // header as the caller / the reference reads it, payload as it was at that call
+		l25b bool       // the exchange of the two header bytes (finding L25b) may apply
+	}
+	var kept []held
+	sameBufRefilled, encRuns, run, redecs := 0, 0, 0, 0
+	lastFill := map[int]string{}
+	for i, op := range c.Ops {
+		switch op.Kind {
+		case "enc":
+			if op.Version < 1 || op.Version > 255 || op.Network < 1 || op.Network > 255 || op.Prefix == "" || strings.ContainsAny(op.Prefix, ":\n") || op.Buf < 0 {
+				ctx.Discard("outside domain")
+				return nil
+			}
+			k := op.Buf % len(bufs)
+			b := bufs[k]
+			fillInPlace(b, op.Fill) // same slice, same length, new contents
+			text := bscript.EncodeBIP276(bscript.BIP276{Prefix: op.Prefix, Version: op.Version, Network: op.Network, Data: b})
+			kept = append(kept, held{what: fmt.Sprintf("call %d (enc from buffer %d, %d bytes)", i, k, len(b)), text: text,
+				want: ref.BIP276{Prefix: op.Prefix, Version: op.Version, Network: op.Network, Data: append([]byte{}, b...)}, l25b: true})
+			if prev, ok := lastFill[k]; ok && prev != string(b) {
+				sameBufRefilled++
+			}
+			lastFill[k] = string(b)
+			run++
+			if run >= 2 {
+				encRuns++
+			}
+		case "redec":
+			run = 0
+			if len(kept) == 0 || op.Buf < 0 {
+				continue
+			}
+			src := kept[op.Buf%len(kept)]
+			hdr, rerr := ref.DecodeBIP276(src.text)
+			if rerr != nil {
+				continue // the text was already wrong; it is reported below when the kept texts are compared
+			}
+			got, err := bscript.DecodeBIP276(src.text)
+			if err != nil || got == nil {
+				return fmt.Errorf("call %d (redec): DecodeBIP276 of the text produced by %s failed: %v", i, src.what, err)
+			}
+			if !bytes.Equal(got.Data, hdr.Data) {
+				return fmt.Errorf("call %d (redec): the text produced by %s decodes to %d payload bytes that differ from the reference's %d", i, src.what, len(got.Data), len(hdr.Data))
+			}
+			fillInPlace(got.Data, op.Fill) // the caller edits the value it was given, in place
+			text := bscript.EncodeBIP276(*got)
+			kept = append(kept, held{what: fmt.Sprintf("call %d (decoded the text of %s, refilled the returned Data in place, encoded again)", i, src.what), text: text,
+				want: ref.BIP276{Prefix: hdr.Prefix, Version: hdr.Version, Network: hdr.Network, Data: append([]byte{}, got.Data...)}})
+			redecs++
+		default:
+			ctx.Discard("malformed case")
+			return nil
+		}
+	}
+	// everything examined after the last call
+	for _, h := range kept {
+		want := ref.EncodeBIP276(h.want)
+		if h.text == want {
+			continue
+		}
+		if h.l25b && h.want.Version != h.want.Network && ctx.Known("L25b") &&
+			h.text == ref.EncodeBIP276(ref.BIP276{Prefix: h.want.Prefix, Version: h.want.Network, Network: h.want.Version, Data: h.want.Data}) {
+			continue // recorded finding (network written before version), the unchanged matcher
+		}
+		got, derr := ref.DecodeBIP276(h.text)
+		return fmt.Errorf("%s returned a text that does not describe the payload as it was at that call: the text decodes (reference) to {%s %d %d, %d bytes %s, err %v}, handed in {%s %d %d, %d bytes %s}",
+			h.what, got.Prefix, got.Version, got.Network, len(got.Data), clipHex(got.Data), derr, h.want.Prefix, h.want.Version, h.want.Network, len(h.want.Data), clipHex(h.want.Data))
+	}
+	big := 0
+	for _, n := range c.Sizes {
+		if n > big {
+			big = n
+		}
+	}
+	ctx.Labelf("largest_buffer=%s", sizeClass(big))
+	if sameBufRefilled > 0 {
+		ctx.Label("buffer-refilled-in-place")
+		ctx.NonTrivial()
+	}
+	if encRuns > 0 {
+		ctx.Label("enc-enc-without-other-call")
+	}
+	if redecs > 0 {
+		ctx.Label("decode-edit-encode")
+	}
+	return nil
+}
+
+func clipHex(b []byte) string {
+	if len(b) > 16 {
+		return fmt.Sprintf("%x..", b[:16])
+	}
+	return fmt.Sprintf("%x", b)
+}
+
+func sizeClass(n int) string {
+	switch {
+	case n < 1024:
+		return "<1024"
+	case n < 4096:
+		return "1024-4095"
+	case n < 65536:
+		return "4096-65535"
+	}
+	return ">=65536"
+}
+
+func genBufs(t *rapid.T) Bufs {
+	var c Bufs
+	for i, n := 0, rapid.IntRange(1, 3).Draw(t, "nbufs"); i < n; i++ {
+		size := rapid.SampledFrom([]int{0, 1, 2, 20, 20, 75, 76, 255, 256, 1000, 1023, 1024, 1024, 1025, 2048, 4096}).Draw(t, "size")
+		if rapid.IntRange(0, 39).Draw(t, "huge") == 0 {
+			size = rapid.SampledFrom([]int{4097, 65535, 65536}).Draw(t, "size_huge")
+		}
+		c.Sizes = append(c.Sizes, size)
+	}
+	pattern := rapid.SampledFrom([]string{"enc-only", "mixed", "mixed"}).Draw(t, "pattern")
+	p := rapid.SampledFrom([]string{bscript.PrefixScript, bscript.PrefixTemplate}).Draw(t, "prefix")
+	v, nw := rapid.IntRange(1, 255).Draw(t, "v"), rapid.IntRange(1, 255).Draw(t, "n")
+	for i, n := 0, rapid.IntRange(2, 8).Draw(t, "nops"); i < n; i++ {
+		op := BufOp{Kind: "enc", Prefix: p, Version: v, Network: nw, Buf: rapid.IntRange(0, 2).Draw(t, "buf"),
+			Fill: rapid.SliceOfN(rapid.Byte(), 1, 8).Draw(t, "fill")}
+		if pattern == "mixed" && i > 0 && rapid.IntRange(0, 2).Draw(t, "redec") == 0 {
+			op = BufOp{Kind: "redec", Buf: rapid.IntRange(0, 7).Draw(t, "src"), Fill: op.Fill}
+		}
+		switch rapid.IntRange(0, 5).Draw(t, "header") { // mostly the same script under the same or another header
+		case 0:
+			op.Version, op.Network = rapid.IntRange(1, 255).Draw(t, "v2"), rapid.IntRange(1, 255).Draw(t, "n2")
+		case 1:
+			if op.Prefix == bscript.PrefixScript {
+				op.Prefix = bscript.PrefixTemplate
+			} else if op.Kind == "enc" {
+				op.Prefix = bscript.PrefixScript
+			}
+		}
+		c.Ops = append(c.Ops, op)
+	}
+	return c
+}
+
+func TestBuffers(t *testing.T) {
+	pbt.Run(t, pbt.Sub[Bufs]{
+		Name: "buffers", Quick: 36000, Thorough: 600000,
+		Gen:   genBufs,
+		Check: checkBufs,
+	})
+}
